@@ -826,6 +826,8 @@ def op_resize(ctx, add, label, rt, site):
                       f' — e.g. head {w["P"]}, size {w["S"]}, capacity {w["C"]}, new capacity {w["p:newCapacity"]}'
             else: why = f'neither proved nor refuted from the path condition {rt}'
         add('RB.4', safe, f'{label} {rt}: in-place reallocation only when every live element lies below n', re_[0][0].shortloc(), why, key='RB.4|inplace-guard')
+        if ctx.is_class or True:
+            add('RB.8', safe, f'{label} {rt}: an in-place reallocation abandons no live element', re_[0][0].shortloc(), why, key='RB.8|inplace-guard')
         okf = isinstance(pos1, Lin) and pos1 == P_ and size1 is not None and ctx.eq(size1, S_)
         add('RB.4', okf, f'{label} {rt}: in place keeps pos and size', site, '' if okf else f'pos\'={pos1}, size\'={size1}', key='RB.4|inplace-fields')
         okb = isinstance(re_[0][1][2], Bytes) and as_lin(re_[0][1][2].n) is not None and ctx.eq(as_lin(re_[0][1][2].n), N)
